@@ -309,3 +309,14 @@ MmapLog<'static, ItemType, MAX_STREAMS> {
     type ItemType            = ItemType;
     type DerivedItemType     = &'static ItemType;
 }
+
+
+/// verification only: access to the streams bookkeeping of this channel
+#[cfg(feature = "verif")]
+impl<'a, ItemType:          Send + Sync + Debug + 'a,
+         const MAX_STREAMS: usize>
+MmapLog<'a, ItemType, MAX_STREAMS> {
+    pub fn verif_streams_manager(&self) -> &StreamsManagerBase<MAX_STREAMS> {
+        &self.streams_manager
+    }
+}
